@@ -1224,3 +1224,7 @@ def _full_params(plan, row, fixed_vals):
     vals = dict(zip(plan['names'], row))
     vals.update(fixed_vals)
     return np.array([float(vals[n]) for n in plan['full_names']], dtype=float)
+
+
+RULE += (' Classes and clauses added in later rounds of the seeded-change protocol (DESIGN 9.4) are named in REQUIRED '
+         'and in seeded/HISTORY.json; the evidence counts every one of them under classes.')
